@@ -76,4 +76,10 @@ def genHiveWith (g : BodyGuard) (s : Shape) : Bool :=
 
 def genHive (s : Shape) : Bool := genHiveWith .anyQuery s
 
+/-- how a generator override that turns an infix operator into a call (`a % b` → `MOD(a, b)`) unwraps a redundant
+    `Paren` around an operand: `all` = `x.unnest()`, `one` = `x.this`, `keep` = the Paren is kept -/
+inductive Unwrap where
+  | all | one | keep
+deriving DecidableEq, Repr
+
 end SqlglotModel.Engine
